@@ -179,14 +179,23 @@ def _local_defs(fn: ast.FunctionDef):
     return {k: v for k, v in defs.items() if count.get(k) == 1}
 
 
+def _subst_names(e: ast.AST, defs) -> ast.AST:
+    import copy
+
+    class S(ast.NodeTransformer):
+        def visit_Name(self, n):
+            return copy.deepcopy(defs[n.id]) if isinstance(n.ctx, ast.Load) and n.id in defs else n
+    return S().visit(copy.deepcopy(e))
+
+
 def _per_row_loops(fn: ast.FunctionDef) -> List[ast.For]:
     out = []
     defs = _local_defs(fn)
     for l in ast.walk(fn):
         if isinstance(l, ast.For) and isinstance(l.iter, ast.Call) and attr_chain(l.iter.func) == "range" and len(l.iter.args) == 1:
             arg = l.iter.args[0]
-            if isinstance(arg, ast.Name) and arg.id in defs:
-                arg = defs[arg.id]
+            for _ in range(4):  # see through temporaries (count = max(1, m); m = len(params))
+                arg = _subst_names(arg, defs)
             a = dump(arg).replace(" ", "")
             if a in ("max(1,len(params))", "max(len(params),1)"):
                 out.append(l)
